@@ -277,12 +277,9 @@ def read_segment(seg, d, supplemental, wlog):
     buf = io.BytesIO(raw.encode('latin-1'))
     b = 2 * PRE
     n0 = len(wlog)
-    try:
-        r = FlowCal.io.read_fcs_text_segment(buf, b, b + len(seg) - 1, delim=d if supplemental else None,
-                                             supplemental=supplemental)
-        res = ('return', r, len(wlog) > n0)
-    except Exception as e:   # noqa
-        res = ('raise', e, len(wlog) > n0)
+    rr = call(FlowCal.io.read_fcs_text_segment, buf, b, b + len(seg) - 1, delim=d if supplemental else None,
+              supplemental=supplemental)          # through call(): the outcome is logged for the engine cross-check
+    res = (rr[0], rr[1], len(wlog) > n0)
     if len(wlog) > 1000:
         del wlog[:]
     return res
